@@ -510,6 +510,41 @@ pub fn deviate(rng: &mut Rng, s: &mut Sym, which: usize) -> Option<String> {
             }
             None
         }
+        24 => {
+            // a referenced disclosure that is not UTF-8 (one byte inside a string replaced by 0xFF):
+            // it is not JSON, so by the algorithm it matches nothing
+            if member_discs.is_empty() {
+                return None;
+            }
+            let i = *rng.pick(&member_discs);
+            let txt = s.discs[i].to_string();
+            let bytes = txt.as_bytes();
+            // a byte inside the last string literal of the text
+            let pos = txt.rfind('"').and_then(|q| if q >= 2 { Some(q - 1) } else { None })?;
+            let mut hex = String::from("hex:");
+            for (k, b) in bytes.iter().enumerate() {
+                hex.push_str(&format!("{:02x}", if k == pos { 0xffu8 } else { *b }));
+            }
+            s.discs[i] = Value::String(hex);
+            Some("ok_non_utf8_disclosure_matches_nothing".into())
+        }
+        25 => {
+            // one malformed digest string (too short, not base64url, truncated) at two places
+            if objs.is_empty() {
+                return None;
+            }
+            let bad = rng.pick(&["abc", "AAAA", "!!!not-base64!!!", "", "c2hvcnQ", "x".repeat(42).as_str(), "y".repeat(44).as_str()]).to_string();
+            let a = rng.pick(&objs).clone();
+            push_sd(obj_at(s, &a)?, json!(bad.clone()));
+            if !arrs.is_empty() && rng.bool() {
+                let b = rng.pick(&arrs).clone();
+                arr_at(s, &b)?.push(json!({"...": bad}));
+            } else {
+                let b = rng.pick(&objs).clone();
+                push_sd(obj_at(s, &b)?, json!(bad));
+            }
+            Some("dup_malformed_digest".into())
+        }
         _ => {
             // empty-array disclosure value, explicit nulls etc. (result defined; library may refuse)
             let i = s.discs.len();
@@ -521,10 +556,15 @@ pub fn deviate(rng: &mut Rng, s: &mut Sym, which: usize) -> Option<String> {
     }
 }
 
-pub const N_DEVIATIONS: usize = 25;
+pub const N_DEVIATIONS: usize = 27;
 
 fn to_cred(s: &Sym, issuer: usize) -> CredSpec {
-    CredSpec::Byz { issuer, typ: None, payload: s.payload.clone(), disclosures: s.discs.iter().map(|d| d.to_string()).collect() }
+    CredSpec::Byz {
+        issuer,
+        typ: None,
+        payload: s.payload.clone(),
+        disclosures: s.discs.iter().map(|d| match d.as_str() { Some(h) if h.starts_with("hex:") => h.to_string(), _ => d.to_string() }).collect(),
+    }
 }
 
 pub fn gen_c08(rng: &mut Rng, tier: Tier) -> MsgScn {
@@ -543,7 +583,7 @@ pub fn gen_c08(rng: &mut Rng, tier: Tier) -> MsgScn {
     let mut creds = vec![to_cred(&base, 0)];
     let mut pres = vec![PresSpec::Direct { cred: 0, picks: (0..base.discs.len()).collect() }];
     let mut cases = Vec::new();
-    let mk_case = |b: Base, rng: &mut Rng| Case { base: b, faults: vec![], wire: vec![], fmt: rand_fmt(rng), session: None, resolver: Resolver::Directory, kb_enc: KbEnc::Absent, extra: vec![], expand: None, hold_s: 0, escapes: false };
+    let mk_case = |b: Base, rng: &mut Rng| Case { base: b, faults: vec![], wire: vec![], fmt: rand_fmt(rng), session: None, resolver: Resolver::Directory, kb_enc: KbEnc::Absent, extra: vec![], expand: None, hold_s: 0, escapes: false, extra_raw: None };
     cases.push(mk_case(Base::Pres(0), rng));
     // well-formed credential: every subset of its disclosures must give the algorithm's result
     let mut c = mk_case(Base::Cred(0), rng);
@@ -578,7 +618,7 @@ pub fn gen_c08(rng: &mut Rng, tier: Tier) -> MsgScn {
     {
         let n = 18 + rng.usize(match tier {
             Tier::Quick => 14,
-            Tier::Thorough => 60,
+            Tier::Thorough => 150,
         });
         let mut chain = |far_end: usize, rng: &mut Rng| -> Sym {
             let mut discs: Vec<Value> = Vec::new();
